@@ -9,9 +9,9 @@ use orchard::tree::MerkleHashOrchard;
 use rand_chacha::ChaChaRng;
 use serde::{Deserialize, Serialize};
 use zcash_client_backend::address::Address;
-use zcash_client_backend::data_api::wallet::input_selection::{GreedyInputSelector, LockedInputPolicy, NonEmptyBTreeSet, SpendPolicy};
-use zcash_client_backend::data_api::wallet::{propose_send_max_transfer, propose_standard_transfer_to_address, propose_transfer, ConfirmationsPolicy, LockRequest};
-use zcash_client_backend::data_api::{MaxSpendMode, WalletCommitmentTrees};
+use zcash_client_backend::data_api::wallet::input_selection::{GreedyInputSelector, LockedInputPolicy, NonEmptyBTreeSet, SpendPolicy, TransparentSpendPolicy};
+use zcash_client_backend::data_api::wallet::{propose_send_max_transfer, propose_shielding, propose_standard_transfer_to_address, propose_transfer, ConfirmationsPolicy, LockRequest};
+use zcash_client_backend::data_api::{CoinbaseFilter, MaxSpendMode, WalletCommitmentTrees};
 use zcash_client_backend::fees::zip317::{MultiOutputChangeStrategy, SingleOutputChangeStrategy};
 use zcash_client_backend::fees::{DustOutputPolicy, SplitPolicy, StandardFeeRule};
 use zcash_client_backend::proposal::{Proposal, StepOutputIndex};
@@ -27,10 +27,16 @@ use crate::db::Wallet;
 use crate::universe::{Owner, Pool, Scope};
 
 use super::chain::{owner, pool_of, Env, NoteKey, OWNER_X, OWNER_Y};
-use super::model::{Model, NoteView};
+use super::model::{Model, NoteView, UtxoView};
 
 type Db = WalletDb<rusqlite::Connection, LocalNetwork, FixedClock, ChaChaRng>;
 type Prop = Proposal<StandardFeeRule, ReceivedNoteId>;
+type ShieldProp = Proposal<StandardFeeRule, Infallible>;
+
+pub enum AnyProp {
+    Notes(Prop),
+    Shield(ShieldProp),
+}
 type TreeErr = shardtree::error::ShardTreeError<zcash_client_sqlite::wallet::commitment_tree::Error>;
 
 pub static CALL_NS: std::sync::atomic::AtomicU64 = std::sync::atomic::AtomicU64::new(0);
@@ -43,6 +49,8 @@ pub enum Entry {
     Transfer,
     Standard,
     SendMax,
+    /// propose_shielding from A's transparent address into account A; `amt` is the shielding threshold
+    Shield,
 }
 #[derive(Clone, Copy, Debug, PartialEq, Eq, Hash, PartialOrd, Ord, Serialize, Deserialize)]
 pub enum Amt {
@@ -64,6 +72,9 @@ pub enum Rcpt {
 pub enum Conf {
     Min,
     Default,
+    /// trusted 1 / untrusted 2, zero-conf shielding NOT allowed (transparent coins then need
+    /// `untrusted` confirmations)
+    NoZeroConf,
 }
 #[derive(Clone, Copy, Debug, PartialEq, Eq, Hash, PartialOrd, Ord, Serialize, Deserialize)]
 pub enum LockPol {
@@ -81,6 +92,8 @@ pub enum Chg {
 pub enum Pools {
     All,
     SaplingOnly,
+    /// all shielded pools plus the account's transparent coins (TransparentSpendPolicy::any_account_addr)
+    AllPlusTransparent,
 }
 
 #[derive(Clone, Debug, PartialEq, Eq, Hash, PartialOrd, Ord, Serialize, Deserialize)]
@@ -108,6 +121,7 @@ fn conf_policy(c: Conf) -> ConfirmationsPolicy {
     match c {
         Conf::Min => ConfirmationsPolicy::MIN,
         Conf::Default => ConfirmationsPolicy::default(),
+        Conf::NoZeroConf => ConfirmationsPolicy::new_unchecked(1, 2, false),
     }
 }
 
@@ -123,7 +137,7 @@ fn lock_policy(l: LockPol) -> LockedInputPolicy {
 
 fn permitted(p: Pools) -> Vec<ShieldedPool> {
     match p {
-        Pools::All => vec![ShieldedPool::Sapling, ShieldedPool::Orchard, ShieldedPool::Ironwood],
+        Pools::All | Pools::AllPlusTransparent => vec![ShieldedPool::Sapling, ShieldedPool::Orchard, ShieldedPool::Ironwood],
         Pools::SaplingOnly => vec![ShieldedPool::Sapling],
     }
 }
@@ -230,6 +244,13 @@ fn eligible(v: &NoteView, target: u32, pol: &ConfirmationsPolicy, overridable: &
         && pools.iter().any(|p| pool_of(*p) == v.pool)
 }
 
+/// Transparent coins: spendable with zero confirmations when the policy allows zero-conf shielding
+/// (ConfirmationsPolicy::confirmations_until_spendable, Transparent arm), else `untrusted`
+/// confirmations (coins of the universe are third-party receipts at an external address).
+fn utxo_eligible(t: &UtxoView, target: u32, pol: &ConfirmationsPolicy, overridable: &BTreeSet<u8>) -> bool {
+    t.owner == Owner::A && t.known && (pol.allow_zero_conf_shielding() || t.mined.is_some_and(|h| target - h >= u32::from(pol.untrusted()))) && !t.lock.is_some_and(|(o, e)| e >= target && !overridable.contains(&o))
+}
+
 fn overridable(l: LockPol) -> BTreeSet<u8> {
     match l {
         LockPol::Exclude => BTreeSet::new(),
@@ -246,7 +267,7 @@ pub struct ReqResult {
     pub paid: Option<u64>,
 }
 
-fn call(env: &Env, w: &mut Wallet, req: &Req, amount: u64) -> Result<Result<Prop, String>, String> {
+fn call(env: &Env, w: &mut Wallet, req: &Req, amount: u64) -> Result<Result<AnyProp, String>, String> {
     let acct = w.acct_a;
     let net = env.u.network;
     let pol = conf_policy(req.conf);
@@ -254,8 +275,16 @@ fn call(env: &Env, w: &mut Wallet, req: &Req, amount: u64) -> Result<Result<Prop
     let lock = req.lock.map(|(o, b)| LockRequest::new(owner(o), b));
     let to = recipient(env, req.rcpt);
     let db: &mut Db = w.db.db_mut();
-    let r = mc_core::catch(|| -> Result<Prop, String> {
-        match req.entry {
+    let r = mc_core::catch(|| -> Result<AnyProp, String> {
+        if req.entry == Entry::Shield {
+            let sel = GreedyInputSelector::<Db>::new().with_locked_input_policy(lpol.clone());
+            let cs = SingleOutputChangeStrategy::<StandardFeeRule, Db>::new(StandardFeeRule::Zip317, None, ShieldedPool::Sapling, DustOutputPolicy::default());
+            return propose_shielding::<_, _, _, _, Infallible>(db, &net, &sel, &cs, Zatoshis::from_u64(amount).unwrap(), &[env.taddr_a], acct, pol, CoinbaseFilter::AllTransparentOutputs, lock)
+                .map(AnyProp::Shield)
+                .map_err(|e| format!("{e:?}"));
+        }
+        (match req.entry {
+            Entry::Shield => unreachable!(),
             Entry::Standard => propose_standard_transfer_to_address::<_, _, Infallible>(db, &net, StandardFeeRule::Zip317, acct, pol, to, Zatoshis::from_u64(amount).unwrap(), None, None, ShieldedPool::Sapling, lock, None)
                 .map_err(|e| format!("{e:?}")),
             Entry::SendMax => propose_send_max_transfer::<_, _, _, Infallible>(
@@ -274,7 +303,10 @@ fn call(env: &Env, w: &mut Wallet, req: &Req, amount: u64) -> Result<Result<Prop
             .map_err(|e| format!("{e:?}")),
             Entry::Transfer => {
                 let request = TransactionRequest::new(vec![Payment::new(to.to_zcash_address(&net), Some(Zatoshis::from_u64(amount).unwrap()), None, None, None, vec![]).map_err(|e| format!("Payment({e:?})"))?]).map_err(|e| format!("Zip321({e:?})"))?;
-                let sp = SpendPolicy::shielded_pools(permitted(req.pools)).with_locked_input_policy(lpol.clone());
+                let mut sp = SpendPolicy::shielded_pools(permitted(req.pools)).with_locked_input_policy(lpol.clone());
+                if req.pools == Pools::AllPlusTransparent {
+                    sp = sp.with_transparent(TransparentSpendPolicy::any_account_addr());
+                }
                 let sel = GreedyInputSelector::<Db>::new();
                 match req.chg {
                     Chg::Single => {
@@ -293,7 +325,8 @@ fn call(env: &Env, w: &mut Wallet, req: &Req, amount: u64) -> Result<Result<Prop
                     }
                 }
             }
-        }
+        })
+        .map(AnyProp::Notes)
     });
     r.map_err(|p| format!("panic in the proposal function: {p}"))
 }
@@ -309,7 +342,14 @@ pub fn run_request_with(env: &Env, w: &mut Wallet, m: &Model, ledger: &[NoteView
     let pol = conf_policy(req.conf);
     let ovr = if req.entry == Entry::Standard { BTreeSet::new() } else { overridable(req.lockpol) };
     let pools = if req.entry == Entry::Standard { permitted(Pools::All) } else { permitted(req.pools) };
-    let ub: u64 = ledger.iter().filter(|v| eligible(v, target, &pol, &ovr, &pools)).map(|v| v.value).sum();
+    let utxos = m.utxo_views(env);
+    let ub_t: u64 = utxos.iter().filter(|t| utxo_eligible(t, target, &pol, &ovr)).map(|t| t.value).sum();
+    let ub_s: u64 = ledger.iter().filter(|v| eligible(v, target, &pol, &ovr, &pools)).map(|v| v.value).sum();
+    let ub = match (req.entry, req.pools) {
+        (Entry::Shield, _) => ub_t,
+        (Entry::Transfer, Pools::AllPlusTransparent) => ub_s + ub_t,
+        _ => ub_s,
+    };
     let amount = match (req.entry, req.amt) {
         (Entry::SendMax, _) => 0,
         (_, Amt::Fixed(a)) => a,
@@ -320,7 +360,7 @@ pub fn run_request_with(env: &Env, w: &mut Wallet, m: &Model, ledger: &[NoteView
             None => return Ok(ReqResult { outcomes: vec!["skipped:no-send-max-amount".into()], inputs: None, paid: None }),
         },
     };
-    if req.entry != Entry::SendMax && amount == 0 {
+    if req.entry != Entry::SendMax && req.entry != Entry::Shield && amount == 0 {
         return Ok(ReqResult { outcomes: vec!["skipped:zero-amount".into()], inputs: None, paid: None });
     }
     let tc = std::time::Instant::now();
@@ -353,13 +393,21 @@ pub fn run_request_with(env: &Env, w: &mut Wallet, m: &Model, ledger: &[NoteView
         }
         Ok(p) => {
             // COVERAGE
-            let need = if req.entry == Entry::SendMax { MIN_FEE + 1 } else { amount + MIN_FEE };
+            // propose_shielding: the threshold bounds the total input value (ShieldingSelector docs)
+            let need = match req.entry {
+                Entry::SendMax => MIN_FEE + 1,
+                Entry::Shield => amount.max(MIN_FEE + 1),
+                _ => amount + MIN_FEE,
+            };
             if ub < need {
                 return Err(format!(
                     "a proposal was returned although the spendable funds cannot cover the request: reference upper bound of spendable value {ub} < {need} (amount {amount} + minimum ZIP 317 fee {MIN_FEE}); target height {target}"
                 ));
             }
-            let (o, inputs, paid) = check_proposal(env, w, m, ledger, req, amount, &pol, &ovr, &pools, &p, cache)?;
+            let (o, inputs, paid) = match &p {
+                AnyProp::Notes(p) => check_proposal(env, w, m, ledger, &utxos, req, amount, &pol, &ovr, &pools, p, cache)?,
+                AnyProp::Shield(p) => check_proposal(env, w, m, ledger, &utxos, req, amount, &pol, &ovr, &pools, p, cache)?,
+            };
             outs.extend(o);
             Ok(ReqResult { outcomes: outs, inputs: Some(inputs), paid: Some(paid) })
         }
@@ -367,17 +415,18 @@ pub fn run_request_with(env: &Env, w: &mut Wallet, m: &Model, ledger: &[NoteView
 }
 
 #[allow(clippy::too_many_arguments)]
-fn check_proposal(
+fn check_proposal<N>(
     env: &Env,
     w: &mut Wallet,
     m: &Model,
     ledger: &[NoteView],
+    utxos: &[UtxoView],
     req: &Req,
     amount: u64,
     pol: &ConfirmationsPolicy,
     ovr: &BTreeSet<u8>,
     pools: &[ShieldedPool],
-    p: &Prop,
+    p: &Proposal<StandardFeeRule, N>,
     cache: &mut WitnessCache,
 ) -> Result<(Vec<String>, Vec<NoteKey>, u64), String> {
     let target = m.target();
@@ -470,8 +519,49 @@ fn check_proposal(
                 in_total += v.value as i128;
             }
         }
-        if let Some(t) = step.transparent_inputs().first() {
-            return Err(format!("step {si}: selected transparent input {:?}, but the wallet owns no transparent funds in the ground truth", t.outpoint()));
+        for t in step.transparent_inputs() {
+            let hash: [u8; 32] = *t.outpoint().hash();
+            let v = utxos
+                .iter()
+                .find(|v| v.hash == hash && t.outpoint().n() == 0)
+                .ok_or_else(|| format!("step {si}: selected transparent input {:?} is not a coin of the ground truth", t.outpoint()))?;
+            let name = env.label(v.key);
+            if req.entry != Entry::Shield && req.pools != Pools::AllPlusTransparent {
+                return Err(format!("step {si}: selected transparent input {name} although the spend policy permits no transparent spending"));
+            }
+            if v.owner != Owner::A {
+                return Err(format!("step {si}: selected transparent input {name} was received at an address of account {:?}, not at the requested address / account A", v.owner));
+            }
+            if !v.known {
+                return Err(format!("step {si}: selected transparent input {name} was never reported to the wallet"));
+            }
+            let val = u64::from(t.txout().value());
+            if val != v.value {
+                return Err(format!("step {si}: selected transparent input {name} carries value {val}, ground truth {}", v.value));
+            }
+            if !pol.allow_zero_conf_shielding() {
+                let need = u32::from(pol.untrusted());
+                match v.mined {
+                    Some(h) if target - h >= need => {}
+                    other => return Err(format!("step {si}: selected transparent input {name} (mined at {other:?}) lacks the {need} confirmations the policy requires at target height {target} (zero-conf shielding not allowed)")),
+                }
+            }
+            if let Some((o, e)) = v.lock {
+                if e >= target {
+                    if !ovr.contains(&o) {
+                        return Err(format!("step {si}: selected transparent input {name} is locked by owner {o} until height {e} (target height {target}); the policy's overridable owners are {ovr:?}"));
+                    }
+                    outs.push("ok:spent-through-overridable-lock".into());
+                } else {
+                    outs.push("ok:used-note-with-expired-lock".into());
+                }
+            }
+            if !used.insert(v.key) {
+                return Err(format!("selected transparent input {name} appears more than once in the proposal"));
+            }
+            outs.push("ok:transparent-input".into());
+            order.push(v.key);
+            in_total += v.value as i128;
         }
         for r in step.prior_step_inputs() {
             let prior = steps.get(r.step_index()).filter(|_| r.step_index() < si).ok_or_else(|| format!("step {si}: reference to step {} is not a prior step", r.step_index()))?;
@@ -497,7 +587,7 @@ fn check_proposal(
         }
         outs.push(format!("ok:change-outputs={}", step.balance().proposed_change().len().min(3)));
     }
-    if req.entry != Entry::SendMax && paid_total != amount as i128 {
+    if req.entry != Entry::SendMax && req.entry != Entry::Shield && paid_total != amount as i128 {
         return Err(format!("the proposal pays {paid_total} to the requested recipient, requested {amount}"));
     }
     outs.push(format!("ok:steps={}", steps.len()));
@@ -522,6 +612,14 @@ fn check_proposal(
     }
     if ledger.iter().any(|v| v.owner == Owner::A && v.spent_on_chain) {
         outs.push("ok:chain-spent-note-skipped".into());
+    }
+    if req.entry == Entry::Shield || req.pools == Pools::AllPlusTransparent {
+        if utxos.iter().any(|t| t.owner == Owner::A && t.known && !used.contains(&t.key) && t.lock.is_some_and(|(o, e)| e >= target && !ovr.contains(&o))) {
+            outs.push("ok:locked-coin-skipped".into());
+        }
+        if utxos.iter().any(|t| t.owner == Owner::A && t.known && !used.contains(&t.key) && !utxo_eligible(t, target, pol, &(0u8..3).collect())) {
+            outs.push("ok:unconfirmed-coin-skipped".into());
+        }
     }
     Ok((outs, order, paid_total.max(0) as u64))
 }
@@ -709,6 +807,7 @@ pub fn eval_state(env: &Env, w: &mut Wallet, m: &Model, lat: &Lattice) -> (Vec<S
                     Entry::Transfer => "transfer",
                     Entry::Standard => "standard",
                     Entry::SendMax => "sendmax",
+                    Entry::Shield => "shield",
                 };
                 if res.inputs.is_some() {
                     outs.push(format!("{tag}:ok"));
